@@ -18,10 +18,6 @@ def main(argv):
     if pid not in MODULES:
         print('no check for', pid)
         return 2
-    # one check at a time touches lean/.lake and the generated tables
-    os.makedirs(os.path.join(core.VERIF, '.locks'), exist_ok=True)
-    lock = open(os.path.join(core.VERIF, '.locks', 'build.lock'), 'w')
-    fcntl.flock(lock, fcntl.LOCK_EX)
     try:
         mod = __import__('harness.' + MODULES[pid], fromlist=['main'])
         return mod.main(pid, tier)
